@@ -207,7 +207,8 @@ def job_text(kind, nsym=3, small_table=True):
         decl = declared_identifiers(text, ofs)
         ctx.event("emitted")
         if len(decl) < 3:
-            return dict(declarations_found=False)
+            # the scanner no longer recognises the layout of the emitted text: nothing can be decided (inconclusive), this is not a naming violation
+            raise Unsupported("declaration scanner found only %d declarations in the emitted text" % len(decl))
         kinds = {k for k, _ in decl}
         if "memory" in kinds:
             ctx.event("memory_declared")
